@@ -388,19 +388,33 @@ def run_property(prop, tier, only=None, keep=False, jobs=16, seed=0,
     os.makedirs(workdir)
     results = []
     try:
-        annot_files = sorted(set(
-            os.path.join(VERIF, a) for u in units for a in u.get('annot', [])))
-        annot_status = annotate.annotate_tree(os.path.join(scr, 'src'),
-                                              annot_files) \
-            if annot_files else {}
-        bad_annot = {k: v for k, v in annot_status.items() if v != 'ok'}
+        # one annotated copy of the tree per distinct set of annotation files
+        # (a unit compiles against the plain copy unless it asks for loops)
+        annot_sets = sorted(set(tuple(sorted(u.get('annot', [])))
+                                for u in units if u.get('annot')))
+        trees = {}
+        annot_status = {}
+        for k, aset in enumerate(annot_sets):
+            root = os.path.join(scr, 'annot%d' % k)
+            os.makedirs(root)
+            subprocess.run(['cp', '-a', os.path.join(scr, 'src'),
+                            os.path.join(root, 'src')], check=True)
+            st = annotate.annotate_tree(os.path.join(root, 'src'),
+                                        [os.path.join(VERIF, a) for a in aset])
+            open(os.path.join(root, 'SET'), 'w').write('|'.join(aset))
+            trees[aset] = (root, {k2: v for k2, v in st.items() if v != 'ok'})
+            annot_status.update(st)
 
         def job(u):
-            if bad_annot and u.get('annot'):
-                r = UnitResult(u)
-                r.reason = 'loop annotation failed: %s' % bad_annot
-                return r
-            return build_unit(u, scr, workdir, tier)
+            aset = tuple(sorted(u.get('annot', [])))
+            root = scr
+            if aset:
+                root, bad = trees[aset]
+                if bad:
+                    r = UnitResult(u)
+                    r.reason = 'loop annotation failed: %s' % bad
+                    return r
+            return build_unit(u, root, workdir, tier)
 
         order = list(units)
         if seed:
@@ -473,6 +487,27 @@ def run_property(prop, tier, only=None, keep=False, jobs=16, seed=0,
             shutil.rmtree(scr, ignore_errors=True)
 
 
+def unit_root(u, scr):
+    """Annotated tree of a unit inside an existing scratch (if any)."""
+    aset = tuple(sorted(u.get('annot', [])))
+    if not aset:
+        return scr
+    k = 0
+    while os.path.isdir(os.path.join(scr, 'annot%d' % k)):
+        marker = os.path.join(scr, 'annot%d' % k, 'SET')
+        if os.path.exists(marker) and open(marker).read() == '|'.join(aset):
+            return os.path.join(scr, 'annot%d' % k)
+        k += 1
+    root = os.path.join(scr, 'annot%d' % k)
+    os.makedirs(root)
+    subprocess.run(['cp', '-a', os.path.join(scr, 'src'),
+                    os.path.join(root, 'src')], check=True)
+    annotate.annotate_tree(os.path.join(root, 'src'),
+                           [os.path.join(VERIF, a) for a in aset])
+    open(os.path.join(root, 'SET'), 'w').write('|'.join(aset))
+    return root
+
+
 def write_replay(prop, r, fails, scr, workdir, tier):
     """Re-run the failing unit with --trace, try to build a native witness.
     Returns (path, tail-of-VIOLATION-line)."""
@@ -480,7 +515,7 @@ def write_replay(prop, r, fails, scr, workdir, tier):
     outdir = os.path.join(VERIF, 'replay', 'out')
     os.makedirs(outdir, exist_ok=True)
     path = os.path.join(outdir, '%s-%s.json' % (prop, u['name']))
-    rt = build_unit(u, scr, workdir, tier, trace=True)
+    rt = build_unit(u, unit_root(u, scr), workdir, tier, trace=True)
     inputs = {}
     trace_excerpt = []
     w = u.get('witness') or {}
@@ -642,7 +677,8 @@ def do_replay(prop, path):
             print(out)
             print('native replay:', verdict)
             return 1 if verdict == 'reproduced' else 0
-        r = build_unit(u, scr, workdir, doc.get('tier', 'quick'))
+        r = build_unit(u, unit_root(u, scr), workdir,
+                       doc.get('tier', 'quick'))
         print('unit %s: %s' % (u['name'], r.status))
         for c in r.failed:
             print('   FAILED %s (%s) %s' % (c['id'], c['loc'], c['desc']))
